@@ -61,8 +61,16 @@ Proof. exact fragment_parse_file. Qed.
 
 Theorem C05_fragment_no_child_lines :
   forall ss : stmts,
+  child_free ss = true ->
   Forall (fun l : lline => ll_parent l = None)
     (r_lines (parse_file_model (render_prog ss) [])).
 Proof. exact fragment_no_parents. Qed.
+
+(* the fragment now holds if/then[/else], while/do, try/except and case statements (single-statement and begin/end bodies): the
+   child lines of their bodies have their parent line earlier in the list and the parent token in it *)
+From PasfmtVerif Require Import Model.Fragment Proofs.FragmentProofs.
+Theorem C05_fragment_child_lines_have_their_parent_earlier :
+  forall ss : stmts, parents_ok (r_lines (parse_file_model (render_prog ss) [])) = true.
+Proof. exact fragment_parents_ok. Qed.
 
 
